@@ -386,13 +386,82 @@ def decodeSheet (p : Package) (path : String) (sst : List Text) (nXf nDxf : Nat)
 
 /-! ## styles (§18.8): what a cell's `s` index means, through `cellXfs` -/
 
+/-- CT_Color (18.8.3 / 18.8.19): `rgb`, `theme`, `indexed`, `tint` (`auto` is not part of the view) -/
+structure ColorV where
+  rgb : Option Text := none
+  theme : Option Nat := none
+  indexed : Option Nat := none
+  tint : Option Text := none
+  deriving Repr, Inhabited, DecidableEq
+
+/-- CT_Font (18.8.22), the facts the property names: `none` = the child element is absent -/
+structure FontV where
+  name : Option Text := none
+  size : Option Text := none          -- `sz/@val` as written (a decimal number)
+  bold : Bool := false
+  italic : Bool := false
+  strike : Bool := false
+  underline : Text := "none".toList   -- `u/@val`, `single` when `<u/>` carries no `val`, `none` without `<u>`
+  color : ColorV := {}
+  deriving Repr, Inhabited, DecidableEq
+
+/-- CT_Fill with a CT_PatternFill (18.8.20, 18.8.32) -/
+structure FillV where
+  pattern : Text := "none".toList
+  fg : Option ColorV := none
+  bg : Option ColorV := none
+  deriving Repr, Inhabited, DecidableEq
+
+/-- CT_BorderPr (18.8.4 ff.): `style` defaults to `none` -/
+structure EdgeV where
+  style : Text := "none".toList
+  color : ColorV := {}
+  deriving Repr, Inhabited, DecidableEq
+
+structure BorderV where
+  left : EdgeV := {}
+  right : EdgeV := {}
+  top : EdgeV := {}
+  bottom : EdgeV := {}
+  diagonal : EdgeV := {}
+  diagonalUp : Bool := false
+  diagonalDown : Bool := false
+  deriving Repr, Inhabited, DecidableEq
+
+/-- CT_CellAlignment (18.8.1), the four attributes of the view; `none` = the attribute is absent -/
+structure AlignV where
+  horizontal : Option Text := none
+  vertical : Option Text := none
+  wrapText : Option Bool := none
+  textRotation : Option Nat := none
+  deriving Repr, Inhabited, DecidableEq
+
+/-- CT_CellProtection (18.8.33) -/
+structure ProtV where
+  locked : Option Bool := none
+  hidden : Option Bool := none
+  deriving Repr, Inhabited, DecidableEq
+
+/-- what one `<xf>` of `cellXfs` means (18.8.45): each component "specified for this xf" is part of the
+    cell's formatting when the corresponding `apply*` attribute says so; an absent `apply*` attribute
+    (the schema gives no default) is read as "applied".  `none` = not applied (or, for alignment /
+    protection, no such child). -/
 structure XfV where
-  numFmtId : Nat
+  numFmtId : Nat                  -- 0 (General) when the number format is not applied
   formatCode : Option Text        -- from `numFmts` when the id is defined there
   bold : Bool
   fillPattern : Text              -- `none` when the fill has no patternFill / no patternType
   fillFg : Text                   -- `rgb:AARRGGBB`, `theme:n`, `indexed:n` or empty
+  numFmtApplied : Bool := true
+  font : Option FontV := none
+  fill : Option FillV := none
+  border : Option BorderV := none
+  alignment : Option AlignV := none
+  protection : Option ProtV := none
   deriving Repr, Inhabited
+
+/-- xsd:boolean lexical forms that mean true -/
+def xsdTrue (v : Text) : Bool := v = ['1'] ∨ v = "true".toList
 
 /-- a CT_BooleanProperty child such as `<b/>`: present means true unless `val` says otherwise -/
 def boolProp (parent : Node) (name : String) : Bool :=
@@ -409,23 +478,83 @@ def colorText (c : Node) : Text :=
   | none, none, some i => "indexed:".toList ++ i
   | none, none, none => []
 
-def styleTable (sr : Node) : List XfV :=
-  let numFmts := (((sr.kid? "numFmts").map (·.kids "numFmt")).getD []).filterMap fun n =>
+def colorV (c : Node) : ColorV :=
+  { rgb := c.attr? "rgb".toList, theme := (c.attr? "theme".toList).bind natOf,
+    indexed := (c.attr? "indexed".toList).bind natOf, tint := c.attr? "tint".toList }
+
+/-- the `val` of the child `name` -/
+def valOf (parent : Node) (name : String) : Option Text := (parent.kid? name).bind (·.attr? "val".toList)
+
+def fontV (f : Node) : FontV :=
+  { name := valOf f "name", size := valOf f "sz", bold := boolProp f "b", italic := boolProp f "i",
+    strike := boolProp f "strike",
+    underline := match f.kid? "u" with
+      | none => "none".toList
+      | some u => (u.attr? "val".toList).getD "single".toList,
+    color := ((f.kid? "color").map colorV).getD {} }
+
+def fillV (f : Node) : FillV :=
+  match f.kid? "patternFill" with
+  | none => {}
+  | some pf =>
+    { pattern := (pf.attr? "patternType".toList).getD "none".toList,
+      fg := (pf.kid? "fgColor").map colorV, bg := (pf.kid? "bgColor").map colorV }
+
+def edgeV (b : Node) (name : String) : EdgeV :=
+  match b.kid? name with
+  | none => {}
+  | some e => { style := (e.attr? "style".toList).getD "none".toList, color := ((e.kid? "color").map colorV).getD {} }
+
+def borderV (b : Node) : BorderV :=
+  { left := edgeV b "left", right := edgeV b "right", top := edgeV b "top", bottom := edgeV b "bottom",
+    diagonal := edgeV b "diagonal",
+    diagonalUp := ((b.attr? "diagonalUp".toList).map xsdTrue).getD false,
+    diagonalDown := ((b.attr? "diagonalDown".toList).map xsdTrue).getD false }
+
+def alignV (a : Node) : AlignV :=
+  { horizontal := a.attr? "horizontal".toList, vertical := a.attr? "vertical".toList,
+    wrapText := (a.attr? "wrapText".toList).map xsdTrue,
+    textRotation := (a.attr? "textRotation".toList).bind natOf }
+
+def protV (p : Node) : ProtV :=
+  { locked := (p.attr? "locked".toList).map xsdTrue, hidden := (p.attr? "hidden".toList).map xsdTrue }
+
+/-- an `apply*` attribute of an `<xf>`: absent = applied -/
+def applied (xf : Node) (name : String) : Bool := ((xf.attr? name.toList).map xsdTrue).getD true
+
+/-- the custom number formats of `<numFmts>` -/
+def numFmtTable (sr : Node) : List (Nat × Text) :=
+  (((sr.kid? "numFmts").map (·.kids "numFmt")).getD []).filterMap fun n =>
     match (n.attr? "numFmtId".toList).bind natOf, n.attr? "formatCode".toList with
     | some i, some c => some (i, c)
     | _, _ => none
+
+/-- one `<xf>` of `cellXfs` against the component tables -/
+def xfV (numFmts : List (Nat × Text)) (fonts fills borders : List Node) (xf : Node) : XfV :=
+  let nfA := applied xf "applyNumberFormat"
+  let nf := if nfA then ((xf.attr? "numFmtId".toList).bind natOf).getD 0 else 0
+  let fontId := ((xf.attr? "fontId".toList).bind natOf).getD 0
+  let fillId := ((xf.attr? "fillId".toList).bind natOf).getD 0
+  let borderId := ((xf.attr? "borderId".toList).bind natOf).getD 0
+  let fontN := if applied xf "applyFont" then fonts[fontId]? else none
+  let fillN := if applied xf "applyFill" then fills[fillId]? else none
+  let borderN := if applied xf "applyBorder" then borders[borderId]? else none
+  let bold := match fontN with | some f => boolProp f "b" | none => false
+  let pf := fillN.bind (·.kid? "patternFill")
+  let pat := (pf.bind (·.attr? "patternType".toList)).getD "none".toList
+  let fg := ((pf.bind (·.kid? "fgColor")).map colorText).getD []
+  { numFmtId := nf, formatCode := if nfA then (numFmts.find? (·.1 = nf)).map (·.2) else none,
+    bold := bold, fillPattern := pat, fillFg := fg,
+    numFmtApplied := nfA, font := fontN.map fontV, fill := fillN.map fillV, border := borderN.map borderV,
+    alignment := if applied xf "applyAlignment" then (xf.kid? "alignment").map alignV else none,
+    protection := if applied xf "applyProtection" then (xf.kid? "protection").map protV else none }
+
+def styleTable (sr : Node) : List XfV :=
   let fonts := ((sr.kid? "fonts").map (·.kids "font")).getD []
   let fills := ((sr.kid? "fills").map (·.kids "fill")).getD []
+  let borders := ((sr.kid? "borders").map (·.kids "border")).getD []
   let xfs := ((sr.kid? "cellXfs").map (·.kids "xf")).getD []
-  xfs.map fun xf =>
-    let nf := ((xf.attr? "numFmtId".toList).bind natOf).getD 0
-    let fontId := ((xf.attr? "fontId".toList).bind natOf).getD 0
-    let fillId := ((xf.attr? "fillId".toList).bind natOf).getD 0
-    let bold := match fonts[fontId]? with | some f => boolProp f "b" | none => false
-    let pf := (fills[fillId]?).bind (·.kid? "patternFill")
-    let pat := (pf.bind (·.attr? "patternType".toList)).getD "none".toList
-    let fg := ((pf.bind (·.kid? "fgColor")).map colorText).getD []
-    { numFmtId := nf, formatCode := (numFmts.find? (·.1 = nf)).map (·.2), bold := bold, fillPattern := pat, fillFg := fg }
+  xfs.map (xfV (numFmtTable sr) fonts fills borders)
 
 /-! ## the workbook -/
 
@@ -506,5 +635,30 @@ def decode (p : Package) : Option BookV × List String :=
       (some { sheets := sheetsE.map (·.1), active := active, names := namesV,
               xfs := (stylesRoot.map styleTable).getD [] },
        e0 ++ e0b ++ e0c ++ e1 ++ e2 ++ sheetsE.flatMap (·.2) ++ e3 ++ e4)
+
+/-! ## cells without `s` (18.3.1.4: the default of `s` is 0; the view shows such a cell as "no style of its own") -/
+
+/-- the references of the cells of a worksheet part that carry no `s` -/
+def unstyledRefs (root : Node) : List Text :=
+  let rows := ((root.kid? "sheetData").map (·.kids "row")).getD []
+  (rows.zip (rowNumbers 0 rows)).flatMap fun (r, rn) =>
+    let cs := r.kids "c"
+    let cells := fillRefs rn 0 (cs.map fun c => (decodeCell [] c).1)
+    (cells.zip cs).filterMap fun (cv, c) => if (c.attr? "s".toList).isNone then some cv.ref else none
+
+/-- per sheet of the workbook, in sheet-list order: `unstyledRefs` of its part (the same part look-up as `decode`) -/
+def unstyledOf (p : Package) : List (List Text) :=
+  match (relsOf p "").find? (fun r => r.type.endsWith "/officeDocument") with
+  | none => []
+  | some mr =>
+    let wbPath := resolveTarget "" mr.target
+    match (p.part? wbPath).bind (·.xml) with
+    | none => []
+    | some wb =>
+      let wrels := relsOf p wbPath
+      (((wb.kid? "sheets").map (·.kids "sheet")).getD []).map fun s =>
+        match (s.attr? "r:id".toList).bind (fun rid => wrels.find? (fun (r : Rel) => r.id = str rid)) with
+        | none => []
+        | some r => (((p.part? (resolveTarget wbPath r.target)).bind (·.xml)).map unstyledRefs).getD []
 
 end Umya.Spec.Sml
